@@ -42,6 +42,13 @@ var poolMethods = &hist.Pool{
 	Patterns: []string{"/a", "/a/b"},
 }
 
+// poolMethods3: three custom methods registered one after the other (FOO with a single route, so that deleting it
+// removes its root and shifts the roots behind it); explored with sequences of exactly three operations.
+var poolMethods3 = &hist.Pool{
+	Methods:  []string{"GET", "FOO", "BAR", "BAZ"},
+	Patterns: []string{"/a", "/a/b", "/a/c"},
+}
+
 // pool / probes / serveProbe are switched by usePool before a run.
 var pool = poolPrefix
 
@@ -56,6 +63,13 @@ func usePool(name string) {
 	if name == "methods" {
 		pool = poolMethods
 		probes = []probe{{"GET", "/a"}, {"GET", "/a/b"}, {"FOO", "/a"}, {"BAR", "/a"}, {"BAR", "/a/b"}, {"PUT", "/a"}}
+		serveProbe = "/a"
+		prefixes = []string{"/", "/a", "/a/"}
+		return
+	}
+	if name == "methods3" {
+		pool = poolMethods3
+		probes = []probe{{"GET", "/a"}, {"FOO", "/a"}, {"BAR", "/a"}, {"BAR", "/a/b"}, {"BAR", "/a/c"}, {"BAZ", "/a"}, {"BAZ", "/a/b"}, {"BAZ", "/a/c"}, {"FOO", "/a/c"}}
 		serveProbe = "/a"
 		prefixes = []string{"/", "/a", "/a/"}
 		return
@@ -88,6 +102,11 @@ func (w wop) String() string {
 
 func alphabet() []wop {
 	var out []wop
+	if pool == poolMethods3 {
+		return []wop{{Kind: hist.Delete, Method: "FOO", Pattern: "/a"}, {Kind: hist.Handle, Method: "FOO", Pattern: "/a/c"}, {Kind: hist.Truncate, Method: "FOO"},
+			{Kind: hist.Handle, Method: "BAR", Pattern: "/a/c"}, {Kind: hist.Update, Method: "BAR", Pattern: "/a"}, {Kind: hist.Delete, Method: "BAR", Pattern: "/a/b"},
+			{Kind: hist.Handle, Method: "BAZ", Pattern: "/a/c"}, {Kind: hist.Update, Method: "BAZ", Pattern: "/a/b"}}
+	}
 	if pool == poolMethods {
 		for _, m := range pool.Methods {
 			for _, k := range []int{hist.Handle, hist.Update, hist.Delete} {
@@ -457,6 +476,9 @@ func ind(s string) string {
 
 func seeds() [][]hist.Key {
 	var out [][]hist.Key
+	if pool == poolMethods3 {
+		return [][]hist.Key{{{Method: "GET", Pattern: "/a"}, {Method: "FOO", Pattern: "/a"}, {Method: "BAR", Pattern: "/a"}, {Method: "BAR", Pattern: "/a/b"}, {Method: "BAZ", Pattern: "/a"}, {Method: "BAZ", Pattern: "/a/b"}}}
+	}
 	if pool == poolMethods {
 		all := []hist.Key{{Method: "GET", Pattern: "/a"}, {Method: "FOO", Pattern: "/a"}, {Method: "BAR", Pattern: "/a"}, {Method: "BAR", Pattern: "/a/b"}}
 		for mask := 0; mask < 1<<len(all); mask++ {
@@ -493,7 +515,7 @@ func runSeq(c *mc.Ctx, r *mc.Result, poolName string) {
 	usePool(poolName)
 	alpha := alphabet()
 	maxLen := 3
-	if c.Quick() {
+	if c.Quick() && poolName != "methods3" {
 		maxLen = 2
 	}
 	sd := seeds()
@@ -776,6 +798,7 @@ func init() {
 				runSeq(c, r, "siblings")
 				runSeq(c, r, "infix2")
 				runSeq(c, r, "methods")
+				runSeq(c, r, "methods3")
 			}, Replay: func(c *mc.Ctx, raw json.RawMessage) string {
 				un := mc.DeterministicPools()
 				defer un()
